@@ -25,6 +25,7 @@ type modSet struct {
 	named   []string // components named by contracts of callees
 	hasExpr bool     // some callee contract names locations by expression: globals and ghost state may change
 	boxed   bool     // some callee writes through pointers boxed in interface slices of unknown origin
+	ghosts      map[string]bool // ghost variables assigned by contracts of callees ("pkgpath.name")
 	boxedParams []int // parameters of this function (slices of interfaces) whose boxed pointers are written through
 }
 
@@ -52,6 +53,12 @@ func (m *modSet) union(o *modSet) {
 		m.boxed = true
 	}
 	m.named = append(m.named, o.named...)
+	for k := range o.ghosts {
+		if m.ghosts == nil {
+			m.ghosts = map[string]bool{}
+		}
+		m.ghosts[k] = true
+	}
 	for k, v := range o.descs {
 		m.descs[k] = v
 	}
@@ -244,9 +251,7 @@ func (eng *Engine) modCall(m *modSet, fn *ssa.Function, cc *ssa.CallCommon) {
 						eng.boxedArg(m, fn, cc.Args[bi])
 					}
 				}
-				if hasGhostSet(sp) {
-					m.hasExpr = true
-				}
+				m.addGhostSets(sp)
 				return
 			}
 			eng.modSpec(m, fn, sp, cc)
@@ -307,6 +312,7 @@ func (eng *Engine) modSpec(m *modSet, fn *ssa.Function, sp *FuncSpec, cc *ssa.Ca
 		m.all = true
 		return
 	}
+	m.addGhostSets(sp)
 	if hasModifies(sp) {
 		if len(sp.ModComps) > 0 {
 			m.named = append(m.named, sp.ModComps...)
@@ -442,4 +448,15 @@ func (eng *Engine) boxedArg(m *modSet, fn *ssa.Function, v ssa.Value) {
 		return
 	}
 	m.boxed = true
+}
+
+func (m *modSet) addGhostSets(sp *FuncSpec) {
+	for _, c := range sp.Clauses {
+		if c.Kind == KGhostSet {
+			if m.ghosts == nil {
+				m.ghosts = map[string]bool{}
+			}
+			m.ghosts["G|"+sp.PkgPath+"."+c.Label] = true
+		}
+	}
 }
